@@ -521,10 +521,17 @@ theorem smooth_const {sk : List (Nat × Nat)} {va : List ℝ} {nv : Nat} (hg : G
 
 /-- **`smooth_inplace`**: `smooth_(n)` leaves the triangles alone and replaces the vertex coordinates by
     `smooth_vfunc(v, n)` computed with the cached adjacency and the current vertex areas -/
-theorem smooth_inplace (s : History.TriState ℝ) (n : Nat) :
+theorem smooth_inplace (s : History.TriState ℝ) (n : Nat) (hdim : History.adjDim s.symK = s.v.length) :
     History.triEffect s (.smooth n) =
       some ((Transfer.smooth s.symK (Measures.vertexAreas (History.vtxOfList s.v) s.t)
-          (s.v.map fun p => [p.x, p.y, p.z]) n).map (fun r => ⟨r.getD 0 0, r.getD 1 0, r.getD 2 0⟩), s.t) := rfl
+          (s.v.map fun p => [p.x, p.y, p.z]) n).map (fun r => ⟨r.getD 0 0, r.getD 1 0, r.getD 2 0⟩), s.t) := by
+  simp [History.triEffect, hdim]
+
+/-- when the cached adjacency does not have one row per vertex (trailing unused vertices, or a stale cache) `smooth_`
+    raises (`ValueError` of the sparse product) and changes nothing -/
+theorem smooth_inplace_err (s : History.TriState ℝ) (n : Nat) (hdim : History.adjDim s.symK ≠ s.v.length) :
+    History.triEffect s (.smooth n) = none := by
+  simp [History.triEffect, hdim]
 
 /-- coordinate by coordinate: the new `x`-coordinates are the scalar smoothing of the old `x`-coordinates (likewise
     `y`, `z`), hence stay inside the bounding box when `Good` holds -/
@@ -534,7 +541,10 @@ theorem smooth_inplace_x (s : History.TriState ℝ) (n : Nat) (hin : NbrsInRange
     v'.map (·.x) = smoothS s.symK (Measures.vertexAreas (History.vtxOfList s.v) s.t) (s.v.map (·.x)) n ∧
     v'.map (·.y) = smoothS s.symK (Measures.vertexAreas (History.vtxOfList s.v) s.t) (s.v.map (·.y)) n ∧
     v'.map (·.z) = smoothS s.symK (Measures.vertexAreas (History.vtxOfList s.v) s.t) (s.v.map (·.z)) n := by
-  rw [smooth_inplace] at h
+  by_cases hdim : History.adjDim s.symK = s.v.length
+  swap
+  · rw [smooth_inplace_err s n hdim] at h; cases h
+  rw [smooth_inplace s n hdim] at h
   cases h
   have hrect : Rect 3 (s.v.map fun p => [p.x, p.y, p.z]) := by
     intro r hr; rw [List.mem_map] at hr; obtain ⟨_, _, rfl⟩ := hr; rfl
@@ -660,6 +670,6 @@ example : deg (Topo.symKeys sq) 0 = 2 ∧ W (Topo.symKeys sq) 0 1 = 1 / 2 ∧ W 
 
 /-- `smooth_inplace`: `smooth_(3)` on the square keeps the triangles and smooths the coordinates -/
 example : ∃ v', History.triEffect (History.TriState.fresh [⟨0, 0, 0⟩, ⟨1, 0, 0⟩, ⟨0, 1, 0⟩, ⟨(1 : ℝ), 1, 0⟩] sq) (.smooth 3)
-    = some (v', sq) := ⟨_, smooth_inplace _ 3⟩
+    = some (v', sq) := ⟨_, smooth_inplace _ 3 (by decide)⟩
 
 end LapyVerif.Props.C15
